@@ -130,9 +130,53 @@ def store_oracle(case, impl):
 
 def store_work(case):
     try:
-        return c07.run_impl(case)
+        return c07.run_impl(case) + [['xfmt', cross_format(case)]]
     except Exception as e:
         return [['err', 'harness:' + repr(e)]]
+
+
+def cross_format(case):
+    """stores sharing a registry can hold each other's units (a model loaded with unit_store=S converts a variable into a
+    unit of S): the NAME a store prints for a unit must not depend on which store is asked, and never shows a store prefix.
+    Returns a list of problems (strings)."""
+    import re
+    from cellmlmanip.units import UnitStore
+    stores, defined, problems = [], [], []
+    for op in case['ops']:
+        try:
+            if op[0] == 'new':
+                stores.append(UnitStore(None if op[1] < 0 else stores[op[1]]))
+                defined.append([])
+            elif op[0] == 'add':
+                stores[op[1]].add_unit(op[2], c07.uexpr_str(op[3]))
+                defined[op[1]].append(op[2])
+            elif op[0] == 'base':
+                stores[op[1]].add_base_unit(op[2])
+                defined[op[1]].append(op[2])
+        except Exception:
+            pass
+    reg = case['reg_of']
+    for t in range(len(stores)):
+        for n in dict.fromkeys(defined[t]):
+            try:
+                u = stores[t].get_unit(n)
+            except Exception:
+                continue
+            own = (stores[t].format(u), stores[t].format(u, base_units=True))
+            if own[0] != n:
+                problems.append('store %d prints its own unit %r as %r' % (t, n, own[0]))
+            for s_ in range(len(stores)):
+                if s_ == t or reg[s_] != reg[t]:
+                    continue
+                try:
+                    other = (stores[s_].format(u), stores[s_].format(u, base_units=True))
+                except Exception as e:
+                    problems.append('store %d cannot format unit %r of store %d (same registry): %r' % (s_, n, t, e))
+                    continue
+                if other != own:
+                    problems.append('unit %r of store %d is printed %r by its own store but %r by store %d (same registry)'
+                                    % (n, t, own, other, s_))
+    return problems[:5]
 
 
 # ---- (b) models --------------------------------------------------------------------------------------------
@@ -324,6 +368,10 @@ def run(ctx):
     impls = vlib.pmap(store_work, cases)
     mods = vlib.model_run(FN, [c07.case_sexp(c) for c in cases]) if ctx.model_ok() else None
     for i, (case, impl) in enumerate(zip(cases, impls)):
+        if impl and impl[-1][0] == 'xfmt':
+            for prob in impl[-1][1]:
+                ctx.violation('cross-store formatting: ' + prob, {'case': case, 'detail': {'kind': 'xfmt'}})
+            impl = impl[:-1]
         ctx.count(case_key=case['ops'], nontrivial=len(case['ops']) > 20, kind='stores=%d/regs=%d' % (case['nstores'], len(set(case['reg_of']))))
         for what, detail in store_oracle(case, impl):
             ctx.violation(what, {'case': case, 'detail': detail})
@@ -365,7 +413,10 @@ def replay(ctx, case):
     c = case.get('case', case)
     impl = c07.run_impl(c)
     bad = store_oracle(c, impl)
-    return bad[0][0] if bad else None
+    if bad:
+        return bad[0][0]
+    probs = cross_format(c)
+    return ('cross-store formatting: ' + probs[0]) if probs else None
 
 
 KNOWN_PREDICATES = {}
